@@ -163,16 +163,51 @@ func c1Taint(c *Ctx, rule string) {
 				}
 				d := Desc(args[1])
 				if strings.HasSuffix(d, ".LineEnding") {
-					// only as the very last write of EncodeEntry
-					last := !ExistsPath(fn, bc.call, func(i ssa.Instruction) bool {
-						for _, o := range encBufCalls(c, fn) {
-							if ssa.Instruction(o.call) == i && isMutatingBufMethod(o.m) {
-								return true
+					// only as the very last write of EncodeEntry (directly, or in a helper every call of which is the
+					// last buffer-writing step of EncodeEntry)
+					var lastIn func(f *ssa.Function, at ssa.Instruction, depth int) bool
+					lastIn = func(f *ssa.Function, at ssa.Instruction, depth int) bool {
+						if depth > 3 {
+							return false
+						}
+						more := ExistsPath(f, at, func(i ssa.Instruction) bool {
+							if i == at {
+								return false
+							}
+							for _, o := range encBufCalls(c, f) {
+								if ssa.Instruction(o.call) == i && isMutatingBufMethod(o.m) {
+									return true
+								}
+							}
+							if cl, ok := i.(*ssa.Call); ok {
+								if h := helperOf(cl); h != nil && len(encBufCalls(c, h)) > 0 {
+									return true
+								}
+							}
+							return false
+						}, nil)
+						if more {
+							return false
+						}
+						if f.Name() == "EncodeEntry" {
+							return true
+						}
+						if !Eligible(f) {
+							return false
+						}
+						sites := sitesOf(f)
+						if len(sites) == 0 {
+							return false
+						}
+						for _, s := range sites {
+							if !lastIn(s.Parent(), s, depth+1) {
+								return false
 							}
 						}
-						return false
-					}, nil)
-					c.Check(last && fn.Name() == "EncodeEntry", rule, name, slot, bc.call.Pos(), "the configured line ending is the last thing written to the line")
+						return true
+					}
+					last := lastIn(fn, bc.call, 0)
+					c.Check(last, rule, name, slot, bc.call.Pos(), "the configured line ending is the last thing written to the line")
 					continue
 				}
 				c.Bad(rule, name, slot, bc.call.Pos(), "run-time text %s is written to the encoder buffer raw; it must go through safeAddString/safeAddByteString", d)
@@ -800,7 +835,7 @@ func constWriteHas(c *Ctx, in ssa.Instruction, b byte) bool {
 }
 
 func c1Pairing(c *Ctx, rule string) {
-	closer := map[byte]byte{'{': '}', '[': ']'}
+	_ = map[byte]byte{}
 	nOpen := 0
 	for _, fn := range coreFuncs(c) {
 		rn := RecvNamed(fn)
@@ -834,40 +869,7 @@ func c1Pairing(c *Ctx, rule string) {
 				}
 			}
 			if open != 0 {
-				b := open
 				nOpen++
-				want := closer[b]
-				if fn.Name() == "OpenNamespace" {
-					// paired with openNamespaces++
-					inc := false
-					rc := fn.Params[0].Name()
-					for _, st := range FieldStoresOf(fn, rn) {
-						if st.Field == "openNamespaces" && Desc(st.Instr.Val) == "("+rc+".openNamespaces + 1)" && Dominates(in, st.Instr) {
-							inc = true
-						}
-					}
-					c.Check(inc, rule, name, "opener-counted", in.Pos(), "the namespace's '{' is recorded in openNamespaces, whose closers closeOpenNamespaces emits")
-					return
-				}
-				isCloser := func(i ssa.Instruction) bool {
-					ca, ok := constWrite(c, i)
-					if !ok {
-						return false
-					}
-					for _, a := range ca {
-						has := false
-						for _, x := range a {
-							if x == want {
-								has = true
-							}
-						}
-						if !has {
-							return false
-						}
-					}
-					return true
-				}
-				c.Check(!ExistsPath(fn, in, IsExit, isCloser), rule, name, "closed/"+string(b), in.Pos(), "every path from this '%c' to a return (including the marshaler-error path) writes the matching '%c'", b, want)
 			}
 			if cl, isCall := in.(*ssa.Call); isCall {
 				if f := CalleeFunc(cl); f != nil {
@@ -897,9 +899,10 @@ func c1Pairing(c *Ctx, rule string) {
 			c.Check(okAll, rule, name, "quotes-paired", fn.Pos(), "%d quote-writing site(s): on every path the quotes pair up (the function ends outside a string literal) and every escaped write lies inside one %s", nq, bad)
 		}
 	}
-	if nOpen < 4 {
-		c.Bad(rule, "openers", "count", token.NoPos, "expected at least 4 bracket openers in the JSON encoder, found %d", nOpen)
+	if nOpen < 2 {
+		c.Bad(rule, "openers", "count", token.NoPos, "expected at least 2 bracket-opening write sites in the JSON encoder, found %d", nOpen)
 	}
+	c1Brackets(c, rule)
 	// closeOpenNamespaces: loop bounded by the counter, counter zeroed after
 	cn := c.Method(CorePath, "jsonEncoder", "closeOpenNamespaces")
 	if c.Anchor(rule, "zapcore.jsonEncoder.closeOpenNamespaces", cn != nil) {
@@ -953,7 +956,7 @@ func c1Pairing(c *Ctx, rule string) {
 	ee := c.Method(CorePath, "jsonEncoder", "EncodeEntry")
 	if c.Anchor(rule, "zapcore.jsonEncoder.EncodeEntry", ee != nil) {
 		var open, closeNS, closeB, ending, fieldsCall ssa.Instruction
-		AllInstrs(ee, func(in ssa.Instruction) {
+		InstrsDeep(ee, func(in ssa.Instruction) {
 			if b, ok := appendByteConst(c, in); ok {
 				if b == '{' && open == nil {
 					open = in
@@ -1372,59 +1375,212 @@ func nilGuarded(call *ssa.Call, v ssa.Value) bool {
 // ---------------------------------------------------------------------------
 func c1Fallback(c *Ctx, rule string) {
 	n := 0
+	hasOptional := map[*ssa.Function]bool{}
+	writes := map[*ssa.Function]bool{}
 	for _, fn := range coreFuncs(c) {
-		rn := RecvNamed(fn)
-		if rn == nil || rn.Obj().Name() != "jsonEncoder" {
-			continue
-		}
 		for _, cl := range Calls(fn) {
 			call, ok := cl.(*ssa.Call)
-			if !ok || call.Call.IsInvoke() || StaticCallee(call) != nil {
+			if !ok {
 				continue
 			}
-			fld, ok := optionalField(call.Call.Value)
-			if !ok || fld == "NewReflectedEncoder" {
-				continue
-			}
-			n++
-			// an If comparing two Len(buf) results, the first taken before the call, evaluated on every path after the call,
-			// whose equal-branch writes a fallback through a sibling Append/Add method
-			var chk *ssa.If
-			for _, b := range fn.Blocks {
-				iff, ok := b.Instrs[len(b.Instrs)-1].(*ssa.If)
-				if !ok {
-					continue
-				}
-				bo, ok := iff.Cond.(*ssa.BinOp)
-				if !ok || bo.Op != token.EQL {
-					continue
-				}
-				l1, ok1 := bo.X.(*ssa.Call)
-				l2, ok2 := bo.Y.(*ssa.Call)
-				if !ok1 || !ok2 || CalleeFunc(l1) == nil || CalleeFunc(l1).Name() != "Len" || CalleeFunc(l2) == nil || CalleeFunc(l2).Name() != "Len" {
-					continue
-				}
-				if Dominates(l1, call) && ExistsPath(fn, call, func(i ssa.Instruction) bool { return i == ssa.Instruction(l2) }, nil) && !ExistsPath(fn, l2, func(i ssa.Instruction) bool { return i == ssa.Instruction(call) }, nil) {
-					chk = iff
+			if !call.Call.IsInvoke() && StaticCallee(call) == nil {
+				if fld, ok := optionalField(call.Call.Value); ok && fld != "NewReflectedEncoder" {
+					hasOptional[fn] = true
 				}
 			}
-			ok2 := chk != nil && !ExistsPath(fn, call, IsExit, func(i ssa.Instruction) bool { return i == ssa.Instruction(chk) })
-			fb := false
-			if chk != nil {
-				for _, in := range chk.Block().Succs[0].Instrs {
-					if c2, isCall := in.(*ssa.Call); isCall {
-						if f := CalleeFunc(c2); f != nil && (strings.HasPrefix(f.Name(), "Append") || strings.HasPrefix(f.Name(), "Add")) {
-							fb = true
-						}
+		}
+		for _, o := range encBufCalls(c, fn) {
+			if isMutatingBufMethod(o.m) {
+				writes[fn] = true
+			}
+		}
+	}
+	// transitive closure over static callees inside zapcore
+	for changed := true; changed; {
+		changed = false
+		for _, fn := range coreFuncs(c) {
+			for _, cl := range Calls(fn) {
+				if sc := StaticCallee(cl); sc != nil {
+					if hasOptional[sc] && !hasOptional[fn] && Eligible(sc) {
+						hasOptional[fn], changed = true, true
+					}
+					if writes[sc] && !writes[fn] {
+						writes[fn], changed = true, true
 					}
 				}
 			}
-			c.Check(ok2 && fb, rule, FuncKey(fn), "fallback/"+fld, call.Pos(), "after the user-supplied %s ran, the buffer length is compared with its value before the call on every path, and an unchanged length writes a built-in representation (a no-op sub-encoder would otherwise leave a key without a value)", fld)
+		}
+	}
+	for _, fn := range coreFuncs(c) {
+		rn := RecvNamed(fn)
+		if rn == nil || rn.Obj().Name() != "jsonEncoder" || !hasOptional[fn] || Eligible(fn) && len(sitesOf(fn)) > 0 && fn.Parent() == nil && allSitesIn(fn, hasOptional) {
+			continue
+		}
+		// Path exploration: after every user sub-encoder call, the buffer length is compared with its value from before
+		// the call (nothing written in between), and an unchanged length is followed by a built-in write.
+		id := func(v ssa.Value) string { return v.Parent().Name() + "." + v.Name() }
+		resolve := func(st *ConcState, v ssa.Value) ssa.Value {
+			v = Strip(v)
+			for k := 0; k < 12; k++ {
+				nx := st.Step(v)
+				if nx == nil {
+					break
+				}
+				v = Strip(nx)
+			}
+			return v
+		}
+		isLen := func(v ssa.Value) bool {
+			cl, ok := v.(*ssa.Call)
+			if !ok {
+				return false
+			}
+			f := CalleeFunc(cl)
+			return f != nil && f.Name() == "Len" && f.Pkg() != nil && f.Pkg().Path() == "go.uber.org/zap/buffer" && encBufRecv(c, Args(cl)[0])
+		}
+		seqs, trunc := ConcPaths(fn, ConcCfg{
+			Prune: true, MaxStates: 300000,
+			Inline: func(h *ssa.Function) bool {
+				return hasOptional[h] || !writes[h] && len(h.Blocks) <= 4
+			},
+			Event: func(in ssa.Instruction, st *ConcState) string {
+				call, ok := in.(*ssa.Call)
+				if !ok {
+					return ""
+				}
+				if isLen(call) {
+					return "len:" + id(call)
+				}
+				if !call.Call.IsInvoke() && StaticCallee(call) == nil {
+					if fld, ok := optionalField(call.Call.Value); ok && fld != "NewReflectedEncoder" {
+						return "sub:" + fld
+					}
+					if fld, ok := optionalField(resolve(st, call.Call.Value)); ok && fld != "NewReflectedEncoder" {
+						return "sub:" + fld
+					}
+				}
+				if f := CalleeFunc(call); f != nil {
+					if f.Pkg() != nil && f.Pkg().Path() == "go.uber.org/zap/buffer" && len(Args(call)) > 0 && encBufRecv(c, Args(call)[0]) && isMutatingBufMethod(f.Name()) {
+						return "write"
+					}
+				}
+				if sc := StaticCallee(call); sc != nil && writes[sc] {
+					return "write"
+				}
+				return ""
+			},
+			Branch: func(cond ssa.Value, taken bool, st *ConcState) string {
+				pol := taken
+				for k := 0; k < 8; k++ {
+					if u, ok := cond.(*ssa.UnOp); ok && u.Op == token.NOT {
+						cond, pol = u.X, !pol
+						continue
+					}
+					if nx := st.Step(cond); nx != nil {
+						cond = nx
+						continue
+					}
+					break
+				}
+				bo, ok := cond.(*ssa.BinOp)
+				if !ok || bo.Op != token.EQL && bo.Op != token.NEQ {
+					return ""
+				}
+				x, y := resolve(st, bo.X), resolve(st, bo.Y)
+				if !isLen(x) || !isLen(y) {
+					return ""
+				}
+				same := pol == (bo.Op == token.EQL)
+				r := "changed"
+				if same {
+					r = "unchanged"
+				}
+				return r + ":" + id(x) + ":" + id(y)
+			},
+		})
+		if trunc || len(seqs) == 0 {
+			c.Und(rule, FuncKey(fn), "fallback", fn.Pos(), "path exploration incomplete (%d sequences, truncated=%v)", len(seqs), trunc)
+			continue
+		}
+		bad := map[string]string{}
+		seen := map[string]bool{}
+		for _, sq := range seqs {
+			ev := strings.Split(sq, " ; ")
+			for i, e := range ev {
+				if !strings.HasPrefix(e, "sub:") {
+					continue
+				}
+				fld := strings.TrimPrefix(e, "sub:")
+				seen[fld] = true
+				// what follows the call
+				why := "the function returns (or goes on) without comparing the buffer length"
+				for j := i + 1; j < len(ev); j++ {
+					x := ev[j]
+					if strings.HasPrefix(x, "len:") {
+						continue
+					}
+					if strings.HasPrefix(x, "unchanged:") || strings.HasPrefix(x, "changed:") {
+						parts := strings.Split(x, ":")
+						// one operand was read before the call with no write in between, the other after the call
+						before, after := -1, -1
+						for k := 0; k < len(ev); k++ {
+							if ev[k] == "len:"+parts[1] || ev[k] == "len:"+parts[2] {
+								if k < i {
+									before = k
+								} else if k > i && k < j {
+									after = k
+								}
+							}
+						}
+						okB := before >= 0 && after >= 0
+						for k := before + 1; okB && k < i; k++ {
+							if ev[k] == "write" || strings.HasPrefix(ev[k], "sub:") {
+								okB = false
+							}
+						}
+						switch {
+						case !okB:
+							why = "the comparison is not between the length taken just before the call and the length after it"
+						case parts[0] == "changed":
+							why = ""
+						case j+1 < len(ev) && ev[j+1] == "write":
+							why = ""
+						default:
+							why = "an unchanged length is not followed by a built-in write"
+						}
+						break
+					}
+					why = "the next step after the call is " + x + ", not the length comparison"
+					break
+				}
+				if why != "" && bad[fld] == "" {
+					bad[fld] = why + " (" + sq + ")"
+				}
+			}
+		}
+		var flds []string
+		for f := range seen {
+			flds = append(flds, f)
+		}
+		sort.Strings(flds)
+		for _, fld := range flds {
+			n++
+			c.Check(bad[fld] == "", rule, FuncKey(fn), "fallback/"+fld, fn.Pos(), "on every path (%d explored, helpers inline), after the user-supplied %s ran the buffer length is compared with its value from just before the call, and an unchanged length is followed by a built-in write (a no-op sub-encoder would otherwise leave a key without a value): %s", len(seqs), fld, bad[fld])
 		}
 	}
 	if n < 5 {
 		c.Bad(rule, "sub-encoder calls", "count", token.NoPos, "only %d user sub-encoder calls found in the JSON encoder", n)
 	}
+}
+
+// allSitesIn: every call site of the eligible helper fn lies in a function of the set (so fn is explored inline there).
+func allSitesIn(fn *ssa.Function, set map[*ssa.Function]bool) bool {
+	for _, s := range sitesOf(fn) {
+		if !set[s.Parent()] {
+			return false
+		}
+	}
+	return true
 }
 
 // ---------------------------------------------------------------------------
@@ -1626,5 +1782,168 @@ func c1Errors(c *Ctx, rule string) {
 	})
 	if nCalls < 10 {
 		c.Bad(rule, "encoder/marshaler calls", "count", token.NoPos, "only %d error-returning encoder/marshaler calls found", nCalls)
+	}
+}
+
+
+// c1Brackets: bracket discipline of every entry point of the JSON encoder, by path exploration with the helpers that
+// can write a bracket explored inline: on every path the brackets written form a balanced, properly nested sequence
+// by the time the method returns (including the marshaler-error path); the only exception is OpenNamespace, whose
+// '{' is recorded in openNamespaces and closed by closeOpenNamespaces.
+func c1Brackets(c *Ctx, rule string) {
+	isBracket := func(x byte) bool { return x == '{' || x == '}' || x == '[' || x == ']' }
+	mayBracket := map[*ssa.Function]bool{}
+	hasLoop := func(f *ssa.Function) bool {
+		for _, b := range f.Blocks {
+			if LoopHeader(b) == b {
+				return true
+			}
+		}
+		return false
+	}
+	funcs := coreFuncs(c)
+	for _, fn := range funcs {
+		rn := RecvNamed(fn)
+		if rn == nil || rn.Obj().Name() != "jsonEncoder" {
+			continue
+		}
+		AllInstrs(fn, func(in ssa.Instruction) {
+			if alts, ok := constWrite(c, in); ok {
+				for _, a := range alts {
+					for _, x := range a {
+						if isBracket(x) {
+							mayBracket[fn] = true
+						}
+					}
+				}
+			}
+		})
+	}
+	for changed := true; changed; {
+		changed = false
+		for _, fn := range funcs {
+			for _, cl := range Calls(fn) {
+				if sc := StaticCallee(cl); sc != nil && mayBracket[sc] && Eligible(sc) && !hasLoop(sc) && !mayBracket[fn] {
+					mayBracket[fn], changed = true, true
+				}
+			}
+		}
+	}
+	cn := c.Method(CorePath, "jsonEncoder", "closeOpenNamespaces")
+	n := 0
+	for _, fn := range funcs {
+		rn := RecvNamed(fn)
+		if rn == nil || rn.Obj().Name() != "jsonEncoder" || !mayBracket[fn] || fn == cn || fn.Parent() != nil {
+			continue
+		}
+		if Eligible(fn) && !hasLoop(fn) {
+			continue // explored inline at its call sites
+		}
+		name := fn.String()
+		seqs, trunc := ConcPaths(fn, ConcCfg{
+			Prune: true, MaxStates: 300000,
+			Inline: func(h *ssa.Function) bool { return mayBracket[h] && !hasLoop(h) && h != cn },
+			Event: func(in ssa.Instruction, st *ConcState) string {
+				switch x := in.(type) {
+				case *ssa.Call:
+					if cn != nil && StaticCallee(x) == cn {
+						return "closeNS"
+					}
+					f := CalleeFunc(x)
+					if f == nil {
+						return ""
+					}
+					if x.Call.IsInvoke() && (f.Name() == "MarshalLogObject" || f.Name() == "MarshalLogArray") {
+						return "marshal"
+					}
+					if f.Pkg() == nil || f.Pkg().Path() != "go.uber.org/zap/buffer" {
+						return ""
+					}
+					args := Args(x)
+					if len(args) != 2 || !encBufRecv(c, args[0]) {
+						return ""
+					}
+					switch f.Name() {
+					case "AppendByte", "WriteByte":
+						if k, ok := st.Int(args[1]); ok && isBracket(byte(k)) {
+							return string(rune(k))
+						}
+					case "AppendString", "WriteString":
+						if b, ok := constBytes(args[1]); ok {
+							out := ""
+							for _, ch := range b {
+								if isBracket(ch) {
+									out += string(rune(ch))
+								}
+							}
+							return out
+						}
+					}
+				case *ssa.Store:
+					if fa, ok := x.Addr.(*ssa.FieldAddr); ok && fieldName(fa.X.Type(), fa.Field) == "openNamespaces" {
+						if bo, ok := x.Val.(*ssa.BinOp); ok && bo.Op == token.ADD {
+							if k, ok := ConstInt(bo.Y); ok && k == 1 {
+								return "ns++"
+							}
+						}
+					}
+				}
+				return ""
+			},
+		})
+		if trunc || len(seqs) == 0 {
+			c.Und(rule, name, "brackets", fn.Pos(), "path exploration incomplete (%d sequences, truncated=%v)", len(seqs), trunc)
+			continue
+		}
+		n++
+		var bad []string
+		for _, sq := range seqs {
+			var stack []byte
+			why := ""
+			evs := strings.Split(sq, " ; ")
+			for i, e := range evs {
+				if e == "closeNS" || e == "marshal" || e == "" {
+					continue
+				}
+				if e == "ns++" {
+					// the preceding '{' is owned by the namespace counter
+					if len(stack) > 0 && stack[len(stack)-1] == '{' && i > 0 {
+						stack = stack[:len(stack)-1]
+					} else {
+						why = "openNamespaces incremented without a '{' written"
+					}
+					continue
+				}
+				for _, ch := range []byte(e) {
+					switch ch {
+					case '{', '[':
+						stack = append(stack, ch)
+					case '}', ']':
+						want := byte('{')
+						if ch == ']' {
+							want = '['
+						}
+						if len(stack) == 0 || stack[len(stack)-1] != want {
+							why = "closer " + string(rune(ch)) + " without its opener"
+						} else {
+							stack = stack[:len(stack)-1]
+						}
+					}
+				}
+			}
+			if why == "" && len(stack) > 0 {
+				why = "returns with " + string(stack) + " still open"
+			}
+			if why != "" {
+				bad = append(bad, why+" ("+sq+")")
+			}
+		}
+		if len(bad) > 3 {
+			bad = append(bad[:3:3], "… "+itoa(len(bad)-3)+" more")
+		}
+		c.Check(len(bad) == 0, rule, name, "brackets-balanced", fn.Pos(), "on each of the %d paths (helpers inline, incl. the marshaler-error path) the brackets this method writes are balanced and properly nested when it returns; a namespace's '{' is handed to the openNamespaces counter: %v", len(seqs), bad)
+	}
+	if n < 3 {
+		c.Bad(rule, "bracket-writing entry points", "count", token.NoPos, "expected at least 3 entry points of the JSON encoder that write brackets, found %d", n)
 	}
 }
